@@ -664,20 +664,39 @@ func (c *Ctx) c19Contexts() {
 				}
 			}
 			R.Check(deferred, "C19.R3", "handleCommand:cancel-on-exit", c.at(wc), "the per-command context is cancelled when the command ends, on every exit", "defer cancel() dominates every return", "the cancel function is not deferred before every return")
-			// every handler call in the dispatch receives the derived context
+			// every handler call in the dispatch receives the derived context (when the switch lives in a function of its
+			// own, that function receives it and hands its context parameter to the handlers)
 			n := 0
-			for _, ci := range core.Calls(hc) {
-				callee := core.StaticCallee(ci)
-				if (callee == nil || !c.P.InPkg(callee, "wire")) && callbackName(ci) == "" {
-					continue // neither a handler of the library nor a user hook called from the dispatch itself
+			_, fwdCalls := c.dispatcher()
+			isFwd := func(ci ssa.CallInstruction) bool {
+				for _, f := range fwdCalls {
+					if f == ci {
+						return true
+					}
 				}
-				for _, a := range ci.Common().Args {
-					if isCtxType(a.Type()) {
-						n++
-						R.Check(a == derived, "C19.R3", "handleCommand:handler-gets-command-context:"+callDescr(ci), c.at(ci), "handlers receive the per-command context", "argument is the WithCancel result", "a handler receives a context other than the per-command one")
+				return false
+			}
+			var visit func(fn *ssa.Function, derived ssa.Value, depth int)
+			visit = func(fn *ssa.Function, derived ssa.Value, depth int) {
+				for _, ci := range core.Calls(fn) {
+					callee := core.StaticCallee(ci)
+					if (callee == nil || !c.P.InPkg(callee, "wire")) && callbackName(ci) == "" {
+						continue // neither a handler of the library nor a user hook called from the dispatch itself
+					}
+					for i, a := range ci.Common().Args {
+						if isCtxType(a.Type()) {
+							n++
+							R.Check(a == derived, "C19.R3", "handleCommand:handler-gets-command-context:"+callDescr(ci), c.at(ci), "handlers receive the per-command context", "argument is the WithCancel result", "a handler receives a context other than the per-command one")
+							if isFwd(ci) && depth < 3 && callee != nil {
+								if i < len(callee.Params) { // Args of a static method call include the receiver, as Params do
+									visit(callee, callee.Params[i], depth+1)
+								}
+							}
+						}
 					}
 				}
 			}
+			visit(hc, derived, 0)
 			R.Floor("C19.R3", "handler calls receiving the per-command context", n, 6)
 		}
 	}
@@ -739,9 +758,14 @@ func (r terminateRule) ret(tc *traceClient, x *core.TSCtx, ret *ssa.Return, q st
 
 func (c *Ctx) c19Terminate() {
 	R := c.R
-	hc := c.mustMethod("C19.R4", "wire", "Session", "handleCommand")
-	if hc == nil {
+	wrap := c.mustMethod("C19.R4", "wire", "Session", "handleCommand")
+	if wrap == nil {
 		return
+	}
+	// the function holding the switch on the message type: handleCommand, or the function it forwards to
+	hc, fwdCalls := c.dispatcher()
+	if hc == nil {
+		hc = wrap
 	}
 	var tparam, connParam *ssa.Parameter
 	for _, p := range hc.Params {
@@ -916,34 +940,55 @@ func (c *Ctx) c19Terminate() {
 			R.Check(ok, "C19.R4", lk.caller+":passes-own-connection", c.at(ci), lk.caller+" hands its own connection to "+lk.callee, "argument is the caller's conn parameter", "the connection passed down is not the caller's own")
 		}
 	}
-	// consumeSingleCommand forwards the handler's result unchanged; consumeCommands stops on it
+	// consumeSingleCommand (and handleCommand, when the switch lives in a function of its own) forwards the
+	// handler's result unchanged; consumeCommands stops on it
+	forwards := func(fn *ssa.Function, call *ssa.Call) bool {
+		fwd := false
+		for _, r := range returns(fn) {
+			roots := core.ErrRoots(errOperand(r))
+			if len(roots) == 1 && roots[0] == ssa.Value(call) && core.InstrDominates(call, r) {
+				// every path from the handler call to a return reaches this return?
+				fwd = true
+			}
+		}
+		// no return after the call may replace the result by nil
+		for _, r := range returns(fn) {
+			if !core.InstrDominates(call, r) {
+				continue
+			}
+			roots := core.ErrRoots(errOperand(r))
+			for _, root := range roots {
+				if root != ssa.Value(call) {
+					fwd = false
+				}
+			}
+		}
+		return fwd
+	}
 	if csc := c.P.Method("wire", "Session", "consumeSingleCommand"); csc != nil {
-		for _, ci := range callsIn(csc, calleeIs(hc)) {
+		for _, ci := range callsIn(csc, calleeIs(wrap)) {
 			call, ok := ci.(*ssa.Call)
 			if !ok {
 				continue
 			}
-			fwd := false
-			for _, r := range returns(csc) {
-				roots := core.ErrRoots(errOperand(r))
-				if len(roots) == 1 && roots[0] == ssa.Value(call) && core.InstrDominates(call, r) {
-					// every path from the handler call to a return reaches this return?
-					fwd = true
+			R.Check(forwards(csc, call), "C19.R4", "consumeSingleCommand:forwards-handler-result", c.at(call), "the result of handleCommand (io.EOF after Terminate) reaches the command loop unchanged", "every return after the handler call returns the call's own error", "a return after the handler call replaces its error (e.g. io.EOF -> nil): after Terminate the loop keeps serving buffered messages")
+		}
+	}
+	for _, ci := range fwdCalls {
+		call, ok := ci.(*ssa.Call)
+		if !ok {
+			R.Fail("C19.R4", fkey(ci.Parent())+":forwards-dispatch-result", c.at(ci), "the result of the dispatch (io.EOF after Terminate) reaches the command loop unchanged", "the dispatch function is not called by a plain call whose result is returned")
+			continue
+		}
+		R.Check(forwards(ci.Parent(), call), "C19.R4", fkey(ci.Parent())+":forwards-dispatch-result", c.at(call), "the result of the dispatch (io.EOF after Terminate) reaches the command loop unchanged", "every return after the dispatch call returns the call's own error", "a return after the dispatch call replaces its error (e.g. io.EOF -> nil): after Terminate the loop keeps serving buffered messages")
+		if armCloses {
+			okc := false
+			for _, a := range ci.Common().Args {
+				if p, isP := a.(*ssa.Parameter); isP && core.IsNamed(p.Type(), "net", "Conn") {
+					okc = true
 				}
 			}
-			// no return after the call may replace the result by nil
-			for _, r := range returns(csc) {
-				if !core.InstrDominates(call, r) {
-					continue
-				}
-				roots := core.ErrRoots(errOperand(r))
-				for _, root := range roots {
-					if root != ssa.Value(call) {
-						fwd = false
-					}
-				}
-			}
-			R.Check(fwd, "C19.R4", "consumeSingleCommand:forwards-handler-result", c.at(call), "the result of handleCommand (io.EOF after Terminate) reaches the command loop unchanged", "every return after the handler call returns the call's own error", "a return after the handler call replaces its error (e.g. io.EOF -> nil): after Terminate the loop keeps serving buffered messages")
+			R.Check(okc, "C19.R4", fkey(ci.Parent())+":passes-own-connection", c.at(ci), fname(ci.Parent())+" hands its own connection to the dispatch", "argument is the caller's conn parameter", "the connection passed down is not the caller's own")
 		}
 	}
 	if ccm := c.P.Method("wire", "Session", "consumeCommands"); ccm != nil {
